@@ -631,6 +631,12 @@ pub fn run(args: &Args, out: &mut Out) {
             out.count("skipped:bytecode-entry");
             continue;
         }
+        if matches!(e.module.as_str(), "std.thread.prim" | "std.channel.prim" | "std.lazy.prim") {
+            // arguments are threads / channels / closures (and `sleep`, `recv` block): exercised by the
+            // history steps through the async primitives instead of the argument sweep
+            out.count("skipped:sweep-excluded-module");
+            continue;
+        }
         let prelude = needs_prelude(&e.module);
         let per_prim = match (args.thorough(), prelude) {
             (true, false) => 400,
@@ -787,7 +793,7 @@ pub fn run(args: &Args, out: &mut Out) {
     }
     out.stats.insert("aborting_primitives".into(), (aborting.len() as u64).into());
     // the model's tables cover the generated table exactly (evaluated by the driver, not the kernel)
-    out.case("coverage", "(coverage (unmodelled) (ghost) (dup) (stray) (raw-route))");
+    out.case("coverage", "(coverage (unmodelled) (ghost) (dup) (stray) (raw-route) (async-steps))");
     // whole programs
     for ((name, prog), (class, detail)) in PROGRAMS.iter().zip(results[n_prim..].iter()) {
         out.count(&format!("program-outcome:{}", if is_abort(class) { "abort" } else { class.as_str() }));
